@@ -257,6 +257,24 @@ pub fn check_one(items: &[Item], pattern: &str, enc: &PatternEncoder, r: &Rec) -
         .iter()
         .map(|e| (e.at, e.text.is_none() && e.background.is_none() && e.intense.is_none()))
         .collect();
+    // A style request is absolute: of several requests at one byte offset only the last one has an effect, and a
+    // reset while nothing is styled has none.  Both sequences are compared in that normal form (an implementation
+    // may or may not issue the ineffective requests, e.g. around an empty highlighted group).
+    fn effective(ev: &[(usize, bool)]) -> Vec<(usize, bool)> {
+        let mut out: Vec<(usize, bool)> = vec![];
+        for (i, e) in ev.iter().enumerate() {
+            if ev.get(i + 1).map_or(false, |n| n.0 == e.0) {
+                continue;
+            }
+            let styled_now = out.last().map_or(false, |l| !l.1);
+            if e.1 && !styled_now {
+                continue;
+            }
+            out.push(*e);
+        }
+        out
+    }
+    let (got_ev, want_ev) = (effective(&got_ev), effective(&want_ev));
     if got_ev != want_ev {
         return Some(("highlight:style-events".into(), format!("pattern {:?} level {}: style events (byte offset, is_reset) {:?}, expected {:?}", pattern, r.level, got_ev, want_ev)));
     }
